@@ -42,6 +42,9 @@ func (Prop) Generate(r *fw.Rand, tier string) []fw.Case {
 	for _, t := range nums {
 		for _, e := range exts {
 			cases = append(cases, fw.Case{Ops: []string{"reset 1", "createdatanode h1 t1", fmt.Sprintf("raw %d %d", t, e), "dump"}, Tags: []string{"raw"}})
+			if e != 0 && t == e {
+				cases = append(cases, fw.Case{Ops: []string{"reset 1", "createdatanode h1 t1", fmt.Sprintf("raw %d %d bad", t, e), "dump"}, Tags: []string{"raw"}})
+			}
 		}
 	}
 	// 2. logs with snapshot ops
@@ -157,6 +160,11 @@ func (s *state) step(op string) (out string) {
 		fmt.Sscan(f[1], &t)
 		fmt.Sscan(f[2], &e)
 		b := meta.VerifRawCommand(int32(t), int32(e))
+		if len(f) > 3 && f[3] == "bad" {
+			// keep the extension field, replace its payload by bytes that do not decode:
+			// [type field][tag varint][3][0x0a 0x05 'x'] (an inner length past the end)
+			b = badPayload(b)
+		}
 		if err := meta.VerifValidateCommand(b); err != nil {
 			return "rejected"
 		}
@@ -168,6 +176,55 @@ func (s *state) step(op string) (out string) {
 		return "applied"
 	}
 	return s.m.Step(op)
+}
+
+// badPayload rewrites a marshalled Command {Type; one extension field} so that the
+// extension's payload is three bytes that do not decode as a message.
+func badPayload(b []byte) []byte {
+	var out []byte
+	i := 0
+	uvarint := func() (uint64, bool) {
+		var v uint64
+		for s := uint(0); i < len(b); s += 7 {
+			c := b[i]
+			i++
+			v |= uint64(c&0x7f) << s
+			if c&0x80 == 0 {
+				return v, true
+			}
+		}
+		return 0, false
+	}
+	for i < len(b) {
+		start := i
+		tag, ok := uvarint()
+		if !ok {
+			return b
+		}
+		switch tag & 7 {
+		case 0:
+			if _, ok := uvarint(); !ok {
+				return b
+			}
+			out = append(out, b[start:i]...)
+		case 2:
+			tagEnd := i
+			l, ok := uvarint()
+			if !ok || i+int(l) > len(b) {
+				return b
+			}
+			i += int(l)
+			if tag>>3 == 1 {
+				out = append(out, b[start:i]...)
+			} else {
+				out = append(out, b[start:tagEnd]...)
+				out = append(out, 3, 0x0a, 0x05, 'x')
+			}
+		default:
+			return b
+		}
+	}
+	return out
 }
 
 func (Prop) RunImpl(c fw.Case) []string {
